@@ -78,8 +78,11 @@ def with_graph(case, T):
 def base_cases(rnd, n, prefix, bnodes=True, schema_share=.3, inverse=None, ors=False, **fixed):
     cases = []
     for i in range(n):
-        if rnd.random() < schema_share:
+        r = rnd.random()
+        if r < schema_share:
             T = gen.schema_graph(rnd, bnodes=bnodes)
+        elif bnodes and r < schema_share + .25:
+            T = gen.dense_graph(rnd)
         else:
             T = gen.general_graph(rnd, bnodes=bnodes, max_nodes=6)
         cfg = gen.switches(rnd, inverse=inverse, ors=ors)
@@ -139,7 +142,7 @@ def check_c12(out, tier):
     rnd = random.Random(common.seed() + 12)
     mine = lambda c: c.startswith("C12.")
     k = pipeline.SIZES[tier]
-    pipeline.l1(out, [("MC_Pair", "MC_C12_quick.cfg")] if tier == "quick" else [("MC_Pair", "MC_C12_thorough.cfg")])
+    pipeline.l1(out, [("MC_Pair", "MC_C12_%s.cfg" % tier), "MC_C12b_%s.cfg" % tier])
     grid = [[0, 1], [1, 4], [1, 3], [1, 2], [51, 100], [2, 3], [3, 4], [1, 1]]
     items = []
     for c in base_cases(rnd, 90 * k, "c12g"):
@@ -150,14 +153,18 @@ def check_c12(out, tier):
     # the two end points are absolute statements: threshold 0 omits nothing observed, threshold 1 keeps only universal features
     ends = []
     for c in base_cases(rnd, 60 * k, "c12e"):
+        c = with_cfg(c, report="mixed", comments=True)
         ends.append(with_cfg(c, thr=[0, 1]))
         e1 = with_cfg(c, thr=[1, 1])
         e1["id"] = c["id"] + "one"
         ends.append(e1)
-    res, verdicts = pipeline.run_and_judge(out, ends, ["C02"], lambda c: False)
+        e2 = with_cfg(c, thr=rnd.choice(grid[1:-1]))
+        e2["id"] = c["id"] + "mid"
+        ends.append(e2)
+    res, verdicts = pipeline.run_and_judge(out, ends, ["C02", "C12"], lambda c: c.startswith("C12."))
     for c in ends:
         for cl in verdicts[c["id"]]["clauses"]:
-            if cl.startswith("C02."):
+            if cl.startswith("C02.") and c["cfg"]["thr"] in ([0, 1], [1, 1]):
                 out.violation("C12.endpoint(%s)" % cl, c, "threshold %s" % c["cfg"]["thr"])
     return ("ordered pairs of thresholds from {0, 1/4, 1/3, 1/2, 0.51, 2/3, 3/4, 1} on the same graph and configuration (fresh "
             "Shapers): keys and shapes at t2 are a subset of those at t1, every alternative printed at both carries the same "
@@ -183,9 +190,14 @@ def check_c13(out, tier):
         items.append({"id": c["id"] + "e", "rel": "noexact", "a": with_cfg(c, disableExact=False), "b": with_cfg(c, disableExact=True)})
         items.append({"id": c["id"] + "d", "rel": "or", "a": with_cfg(c, disableOr=True, redundantOr=False),
                       "b": with_cfg(c, disableOr=False, redundantOr=rnd.random() < .5)})
+    # output file vs returned string, also for outputs that cross the serializer's 5 000-line flush boundary
+    for j, c in enumerate(base_cases(rnd, 12 * k, "c13f", ors=False)):
+        items.append({"id": c["id"], "rel": "present", "how": "file", "a": c, "b": with_cfg(c, sink="file")})
+    big = gen.case("c13big", many_shapes(700 if tier == "quick" else 1500), report="mixed")
+    items.append({"id": "c13big", "rel": "present", "how": "file>5000 lines", "a": big, "b": with_cfg(big, sink="file")})
     campaign(out, "C13", items, mine)
-    # decimals = d: every printed ratio is the d-place rounding of the exact ratio (judged by the C01 clauses of the monitor)
     pinned_campaigns(out, "C13", mine)
+    # decimals = d: every printed ratio is the d-place rounding of the exact ratio (judged by the C01 clauses of the monitor)
     dec = []
     for c in base_cases(rnd, 80 * k, "c13d"):
         dec.append(with_cfg(c, report=rnd.choice(["mixed", "ratio"]), decimals=rnd.choice([0, 0, 1, 2, 3, 4])))
@@ -207,6 +219,17 @@ def check_c13(out, tier):
             "decimals=d prints the d-place rounding")
 
 
+def many_shapes(n):
+    """n one-instance classes with three constraints each: > 7 lines per shape in the ShExC output"""
+    T = []
+    for i in range(n):
+        x = M.iri(M.EX + "m%d" % i)
+        T.append((x, M.RDF_TYPE, M.iri(M.EX + "K%d" % i)))
+        T.append((x, M.EX + "p", M.lit("v")))
+        T.append((x, M.EX + "q", M.lit("1", M.XSD_INTEGER)))
+    return T
+
+
 # ------------------------------------------------------------------------------------------------ C14
 def reverse_graph(T, inst_prop=M.RDF_TYPE):
     return [((o, p, s) if (p != inst_prop and M.is_node(o)) else (s, p, o)) for s, p, o in T]
@@ -218,7 +241,7 @@ def check_c14(out, tier):
     k = pipeline.SIZES[tier]
     pipeline.l1(out, [("MC_Pair", "MC_C14_%s.cfg" % tier)])
     items = []
-    for c in base_cases(rnd, 130 * k, "c14g", bnodes=False, schema_share=.2, ors=False):
+    for c in base_cases(rnd, 130 * k, "c14g", bnodes=False, schema_share=.2, ors=True):
         T = M.from_json_graph(c["graph"])
         R = sorted(set(reverse_graph(T)), key=str)
         rnd.shuffle(R)
@@ -257,7 +280,8 @@ def check_c16(out, tier):
                 out.violation("C16.cap(%s)" % cl, c, "instances_cap=%d" % c["cfg"]["cap"])
     ign = []
     for c in base_cases(rnd, 90 * k, "c16n", schema_share=.1):
-        nss = rnd.choice([[M.EX], [gen.EX2], [M.EX, gen.OTHER], [gen.OTHER], ["http://example.org"], [M.RDF]])
+        nss = rnd.choice([[M.EX], [gen.EX2], [M.EX, gen.OTHER], [gen.OTHER], ["http://example.org"], [M.RDF],
+                          [M.EX, gen.EX2], [gen.EX2, M.EX], [gen.OTHER, M.EX, gen.EX2], ["http://example.org", gen.EX2]])
         ci = with_cfg(c, ignoreNs=nss)
         ign.append(ci)
         if M.RDF not in nss:
